@@ -277,13 +277,22 @@ func addExponentialHistogramMetric[N int64 | float64](
 		desc := prometheus.NewDesc(name, m.Description, keys, nil)
 
 		// From spec: note that Prometheus Native Histograms buckets are indexed by upper boundary while Exponential Histograms are indexed by lower boundary, the result being that the Offset fields are different-by-one.
+		// Prometheus native histograms support schemas (scales) up to 8 only:
+		// a finer-grained data point is shown at scale 8 by merging
+		// neighbouring buckets (index >> shift), it must not be dropped.
+		scale, shift := dp.Scale, int32(0)
+		if scale > 8 {
+			shift = scale - 8
+			scale = 8
+		}
+
 		positiveBuckets := make(map[int]int64)
 		for i, c := range dp.PositiveBucket.Counts {
 			if c > math.MaxInt64 {
 				otel.Handle(fmt.Errorf("positive count %d is too large to be represented as int64", c))
 				continue
 			}
-			positiveBuckets[int(dp.PositiveBucket.Offset)+i+1] = int64(c) // nolint: gosec  // Size check above.
+			positiveBuckets[int((dp.PositiveBucket.Offset+int32(i))>>shift)+1] += int64(c) // nolint: gosec  // Size check above.
 		}
 
 		negativeBuckets := make(map[int]int64)
@@ -292,7 +301,7 @@ func addExponentialHistogramMetric[N int64 | float64](
 				otel.Handle(fmt.Errorf("negative count %d is too large to be represented as int64", c))
 				continue
 			}
-			negativeBuckets[int(dp.NegativeBucket.Offset)+i+1] = int64(c) // nolint: gosec  // Size check above.
+			negativeBuckets[int((dp.NegativeBucket.Offset+int32(i))>>shift)+1] += int64(c) // nolint: gosec  // Size check above.
 		}
 
 		m, err := prometheus.NewConstNativeHistogram(
@@ -302,7 +311,7 @@ func addExponentialHistogramMetric[N int64 | float64](
 			positiveBuckets,
 			negativeBuckets,
 			dp.ZeroCount,
-			dp.Scale,
+			scale,
 			dp.ZeroThreshold,
 			dp.StartTime,
 			values...)
